@@ -76,7 +76,9 @@ fn main() {
         ("- 1", -1.0), ("- 2.5", -2.5), ("-7", -7.0), ("- 0.5e1", -5.0), ("2.5f64", 2.5), ("10u32", 10.0), ("- 3i64", -3.0)];
     let ints: Vec<(&str, u64)> = vec![("0", 0), ("1", 1), ("3", 3), ("10", 10), ("255", 255), ("65536", 65536), ("18446744073709551615", u64::MAX), ("1_000", 1000), ("10usize", 10)];
     for (a, av) in &floats { for (b, bv) in &floats {
-        for form in ["range (min = {A} , max = {B})", "range(min = {A}, max = {B})", "range (max = {B} , min = {A})", "range (min = {A} , max = {B} , message = \"m\")"] {
+        for form in ["range (min = {A} , max = {B})", "range(min = {A}, max = {B})", "range (max = {B} , min = {A})", "range (min = {A} , max = {B} , message = \"m\")",
+            // a trailing comma (how the attribute is written once it is broken over several lines), other validators around it
+            "range (min = {A} , max = {B} ,)", "range (min = {A} , max = {B} , message = \"m\" ,)", "range (\n min = {A} ,\n max = {B} ,\n)", "email , range (min = {A} , max = {B} ,) , url"] {
             let s = form.replace("{A}", a).replace("{B}", b);
             rep.case("range_bounds_exact", &s, &|| {
                 match vp.verif_parse_range_from_tokens(&s) {
@@ -87,7 +89,8 @@ fn main() {
         }
     } }
     for (a, av) in &ints { for (b, bv) in &ints {
-        for form in ["length (min = {A} , max = {B})", "length(min = {A}, max = {B})", "length (max = {B} , min = {A})"] {
+        for form in ["length (min = {A} , max = {B})", "length(min = {A}, max = {B})", "length (max = {B} , min = {A})",
+            "length (min = {A} , max = {B} ,)", "length (min = {A} , max = {B} , message = \"m\" ,)", "length (\n min = {A} ,\n max = {B} ,\n)"] {
             let s = form.replace("{A}", a).replace("{B}", b);
             rep.case("length_bounds_exact", &s, &|| {
                 match vp.verif_parse_length_from_tokens(&s) {
